@@ -351,6 +351,45 @@ def main(chk):
         chk.violation(key, f'partition specs of the converted Linen variables {dict(got)}, of the NNX module w={want["w"].value} b={want["b"].value}', {})
     except Exception as e:
       chk.violation(key, f'raised {type(e).__name__}: {str(e)[:200]}', {})
+  # Linen metadata boxes (nn.Partitioned / nn.LogicallyPartitioned) as the carrier of the sharding metadata: every call in a
+  # sequence of applies on the same variables returns the NNX result, and the caller's boxes keep their fields (names, mesh, rules)
+  def box_fields(tree):
+    leaves = jax.tree_util.tree_leaves(tree, is_leaf=lambda b: isinstance(b, nn.meta.AxisMetadata))
+    return [(type(b).__name__, sorted((k, repr(v)) for k, v in vars(b).items() if k != 'value')) for b in leaves if isinstance(b, nn.meta.AxisMetadata)]
+  for box in (nn.Partitioned, nn.LogicallyPartitioned):
+    class BoxLin(nnx.Module):
+      def __init__(self, rngs):
+        kw = {'sharding_rules': RULES} if box is nn.LogicallyPartitioned else {}
+        self.w = nnx.Param(nnx.with_partitioning(lambda k, s: jnp.ones(s), ('embed', 'hidden'), linen_meta_type=box, **kw)(rngs.params(), (4, 3)))
+        self.n = nnx.BatchStat(jnp.zeros(()))
+
+      def __call__(self):
+        self.n.value = self.n.value + 1.0
+        return jnp.sum(self.w.value) + self.n.value
+    key = f'C18:ToLinen:linen-meta-box:{box.__name__}'
+    chk.count(key)
+    try:
+      lin = bridge.to_linen(BoxLin)
+      variables = lin.init(jax.random.key(0))
+      before = box_fields(variables)
+      if not before or before[0][0] != box.__name__ or ('names', repr(('embed', 'hidden'))) not in before[0][1]:
+        chk.violation(key, f'init does not return the sharding names in a {box.__name__} box: {before}', {})
+        continue
+      outs = []
+      for i in range(3):
+        out, upd = lin.apply(variables, mutable=['batch_stats'])
+        outs.append(float(out))
+        if box_fields(variables) != before:
+          chk.violation(key, f'call #{i} of apply changed the metadata boxes of the variables passed in: {box_fields(variables)}, before {before}', {})
+          break
+        if box_fields(upd) and any(b[0] != box.__name__ for b in box_fields(upd)):
+          chk.violation(key, f'apply returns other box types {box_fields(upd)}', {})
+          break
+      else:
+        if outs != [13.0, 13.0, 13.0]:
+          chk.violation(key, f'three applies on the same variables return {outs}, the NNX module 13.0 each time', {})
+    except Exception as e:
+      chk.violation(key, f'raised {type(e).__name__}: {str(e)[:200]} (sequence of applies on the same variables)', {})
   # a failing lazy_init leaves an initialised wrapper as it was (a stuttering step of the specification)
   chk.count('C18:ToNNX:failed-lazy_init')
   try:
